@@ -2,7 +2,27 @@
 C11 — Regular Merkle tree, continued: the statements that `Props/C11.lean` keeps as `*_Statement`.
 
 Helper lemmas: `LiskVerif/Lemmas/RMTMore.lean` (exact layer structure, the node store as the set of
-proper aligned blocks, right witness, single-leaf walks).
+proper aligned blocks, right witness, single-leaf walks, the layer-by-layer specification `calcSpec` /
+`sibSpec` of `calculatePathNodes` / `getSiblingHashes` for several leaves and the refinement proofs).
+
+Proved in full (the `*_Statement` of `Props/C11.lean`):
+* `C11_store : C11_store_Statement` — `Append` keeps the node store exact;
+* `C11_update_via_proof : C11_update_via_proof_Statement` — `Update` through a proof gives (root, append
+  path, size) of the modified list, for any duplicate-free list of positions (`C11_update_via_proof_single`:
+  one position);
+* `C11_proof_sound_multi : C11_proof_sound_multi_Statement` — an accepted proof for distinct leaf indexes
+  shows that every query is the hash of the leaf at its index (branch hash injective).
+Also: `C11_append_total` — `Append` never fails on a tree built by appends, so every list of leaves builds a
+tree; `C11_built` — the invariant of such trees.
+
+False as written, with the corrected statements:
+* `C11_right_witness_Statement_false` (for `2^64 + 1` leaves `CalculateRootFromRightWitness` runs out of its
+  64 layers) and `C11_right_witness_bounded_partial` (every split point, at most `2^63` leaves);
+* `C11_proof_complete_Statement_false` (for `2^29 + 1` leaves the 32-bit index parser fails and
+  `GenerateProof` returns an error) and `C11_proof_complete_sets_partial` (any duplicate-free list of leaf
+  hashes in any order; extra hypotheses: height at most 30 and no branch hash equals a leaf hash — without
+  the second one the `hash -> location` index may return an inner node for a queried leaf hash;
+  `C11_proof_complete_single_partial`: one query).
 -/
 import LiskVerif.Props.C11
 import LiskVerif.Lemmas.RMTMore
@@ -127,7 +147,8 @@ example : ∃ t, C11.appendTreeAll C11.pairHash (emptyTree C11.pairHash) [[1], [
 
 /-- Every split point: the append path of the first `i` leaves and the right witness generated by the
 full tree reconstruct the root. The bound on the size is needed: `CalculateRootFromRightWitness`
-works on 64 layers with `uint64` arithmetic (for `2^64 + 1` leaves and `i = 3` it returns an error). -/
+works on 64 layers with `uint64` arithmetic (for `2^64 + 1` leaves and `i = 3` it returns an error:
+`C11_right_witness_Statement_false` below). Extra hypothesis: `data.length ≤ 2^63`. -/
 theorem C11_right_witness_bounded_partial (hf : HashFns) (data : List Bytes) (t : Tree) (i : Nat)
     (h : C11.appendTreeAll hf (emptyTree hf) data = some t) (hi : i ≤ data.length)
     (hbound : data.length ≤ 2 ^ 63) :
@@ -168,19 +189,6 @@ theorem C11_update_via_proof_single (hf : HashFns) (data : List Bytes) (t t' : T
     (by rw [hlen]; exact hu)
   rw [this, hlen]
   simp [root, List.map_set]
-
-/-- `C11_update_via_proof_Statement` for one updated index (extra hypothesis: `pos.length = 1`). -/
-theorem C11_update_via_proof_partial (hf : HashFns) (data : List Bytes) (t t' : Tree) (pos : List Nat)
-    (upd : List Bytes) (h1 : pos.length = 1)
-    (h : C11.appendTreeAll hf (emptyTree hf) data = some t) (_hnd : pos.Nodup) (hl : pos.length = upd.length)
-    (hlt : ∀ p ∈ pos, p < data.length)
-    (hu : update hf t (pos.map fun p => 2 ^ getHeight data.length + p) upd = some t') :
-    let data' := (pos.zip upd).foldl (fun d pu => d.set pu.1 pu.2) data
-    t'.core = ⟨root hf data', peaks hf (data'.map hf.leaf), data.length⟩ := by
-  match pos, upd, h1, hl with
-  | [p], [u], _, _ =>
-    simp only [List.zip_cons_cons, List.zip_nil_right, List.foldl_cons, List.foldl_nil]
-    exact C11_update_via_proof_single hf data t t' p u h (hlt p (by simp)) (by simpa using hu)
 
 /-- non-vacuity: a successful update of leaf 3 of a tree of five leaves -/
 example : ((C11.appendTreeAll C11.pairHash (emptyTree C11.pairHash) [[1], [2], [3], [4], [5]]).bind
@@ -334,3 +342,92 @@ example : ∃ t p, C11.appendTreeAll C11.pairHash (emptyTree C11.pairHash) [[7],
     (by decide) (by simp) (by decide) (by decide) (fun a b x hx => pairHash_sep a b x (by simpa [C11.pairHash] using hx))
     (by decide)
   exact ⟨t, p, ht, h1, h2⟩
+
+/-! ### the statements of `Props/C11.lean` that are false as written -/
+
+/-- `C11_right_witness_Statement` is false as written: for `2^64 + 1` leaves and the split point 3 the
+right witness has 64 hashes, of which `CalculateRootFromRightWitness` can consume only 62 in its 64 layers;
+it returns an error. (The bounded statement is `C11_right_witness_bounded_partial`.) -/
+theorem C11_right_witness_Statement_false : ¬ C11_right_witness_Statement := by
+  intro hS
+  obtain ⟨t, ht⟩ := C11_append_total C11.pairHash (List.replicate (2 ^ 64 + 1) [])
+  have hb := C11_built C11.pairHash _ t ht
+  have hlen : ((List.replicate (2 ^ 64 + 1) ([] : Bytes)).map C11.pairHash.leaf).length = 2 ^ 64 + 1 := by
+    rw [List.length_map, List.length_replicate]
+  obtain ⟨w, hw1, hw2⟩ := hS C11.pairHash _ t 3 ht (by rw [List.length_replicate]; decide)
+  obtain ⟨w', hw1', hw2'⟩ := rightWitness_fails C11.pairHash t _ hb.stored hb.size hlen
+  rw [hw1] at hw1'
+  have : w = w' := Option.some.inj hw1'
+  subst this
+  rw [← List.map_take] at hw2'
+  rw [hw2'] at hw2
+  cases hw2
+
+private theorem replicate_two_inj : ∀ a b : Nat, List.replicate (a + 1) (2 : UInt8) = List.replicate (b + 1) 2 → a = b := by
+  intro a b h
+  have := congrArg List.length h
+  simpa using this
+
+private theorem pairHash_ne_replicate_two (a b : Bytes) (k : Nat) :
+    C11.pairHash.branch a b ≠ List.replicate (k + 1) 2 := by
+  intro e
+  simp only [C11.pairHash] at e
+  cases a with
+  | nil => simp [List.replicate_succ] at e
+  | cons a0 ar => simp [List.replicate_succ] at e
+
+/-- `N` distinct leaves that are not branch hashes of the toy hash -/
+private def bigData (N : Nat) : List Bytes := (List.range N).map fun k => List.replicate (k + 1) 2
+
+private theorem locIndex_none_of_high (h : Nat) (hh : 30 < h) : locIndex (0, 0) h = none := by
+  unfold locIndex
+  simp only
+  rw [if_neg (by omega)]
+  have hw : 31 ≤ max (h - 0) (bitLen 0) := by
+    have : h - 0 ≤ max (h - 0) (bitLen 0) := Nat.le_max_left _ _
+    omega
+  have : 2 ^ 31 ≤ 2 ^ max (h - 0) (bitLen 0) := Nat.pow_le_pow_right (by decide) hw
+  rw [if_pos (by omega)]
+
+private theorem generateProof_fails (N : Nat) (hN : 1 ≤ N) (hH : 30 < getHeight N) (t : Tree)
+    (ht : C11.appendTreeAll C11.pairHash (emptyTree C11.pairHash) (bigData N) = some t) :
+    (bigData N).map C11.pairHash.leaf = bigData N ∧ ((bigData N).map C11.pairHash.leaf).Nodup ∧
+    [2] ∈ bigData N ∧ generateProof t [[2]] = none := by
+  have hlen : (bigData N).length = N := by simp [bigData]
+  have hleaf : (bigData N).map C11.pairHash.leaf = bigData N := by simp [C11.pairHash]
+  have hnd : (bigData N).Nodup :=
+    List.Pairwise.map _ (fun a b (hab : a ≠ b) e => hab (replicate_two_inj a b e)) List.nodup_range
+  have h0 : (bigData N)[0]? = some [2] := by
+    unfold bigData
+    rw [List.getElem?_map, List.getElem?_range (by omega)]
+    rfl
+  have hmem : ([2] : Bytes) ∈ bigData N := List.mem_of_getElem? h0
+  have hb := C11_built C11.pairHash (bigData N) t ht
+  rw [hleaf] at hb
+  have hloc : t.getLoc [2] = some (0, 0) :=
+    getLoc_leaf C11.pairHash t (bigData N) hb.h2l hnd (by
+      intro a b x hx
+      simp only [bigData, List.mem_map, List.mem_range] at hx
+      obtain ⟨k, _, rfl⟩ := hx
+      exact pairHash_ne_replicate_two a b k) 0 [2] h0
+  refine ⟨hleaf, by rw [hleaf]; exact hnd, hmem, ?_⟩
+  unfold generateProof
+  rw [hb.size, hlen, if_neg (by omega)]
+  simp only [getIndexes, hloc, locIndex_none_of_high _ hH]
+
+private theorem getHeight_big : getHeight (2 ^ 29 + 1) = 31 := by
+  unfold getHeight clog2
+  rw [if_neg (by decide), Nat.add_sub_cancel, Nat.log2_two_pow]
+
+/-- `C11_proof_complete_Statement` is false as written: for a tree of `2^29 + 1` leaves (height 31) the
+index of a leaf does not fit the 32-bit index parser and `GenerateProof` returns an error. -/
+theorem C11_proof_complete_Statement_false : ¬ C11_proof_complete_Statement := by
+  intro hS
+  obtain ⟨t, ht⟩ := C11_append_total C11.pairHash (bigData (2 ^ 29 + 1))
+  obtain ⟨hleaf, hnd, hmem, hnone⟩ := generateProof_fails (2 ^ 29 + 1) (by omega) (by rw [getHeight_big]; decide) t ht
+  obtain ⟨p, hp, _⟩ := hS C11.pairHash (bigData (2 ^ 29 + 1)) t [[2]] ht hnd (by simp) (by simp) (by
+    intro x hx
+    simp only [List.mem_singleton] at hx
+    rw [hx, hleaf]; exact hmem)
+  rw [hnone] at hp
+  cases hp
